@@ -82,7 +82,8 @@ class PolyhedralTerm(Term):
         return res
 
     def __hash__(self) -> int:
-        return hash(str(self))
+        # hash the values compared by __eq__ (0.0 and -0.0 are equal but print differently)
+        return hash((frozenset(self.variables.items()), self.constant))
 
     def __repr__(self) -> str:
         return "<Term {0}>".format(self)
